@@ -498,7 +498,18 @@ func damageCase(goit string, c *Chunk, snap map[string][]byte, tz int, good M, g
 	}
 	ids = append(ids, craftedIds...)
 	for _, id := range ids {
-		run("cat-t:"+id[:7], "cat-file", "-t", id)
+		if xt := run("cat-t:"+id[:7], "cat-file", "-t", id); xt.Res == "ok" {
+			// the kind printed for an id must be the kind of the intact object stored under that id: a damaged object
+			// (truncated, changed, or another object's file under this name) has no kind to report
+			printed := strings.TrimSpace(string(xt.Stdout))
+			cid := "no-intact-" + printed + "-under-this-id"
+			if tok, ok := st["objs"].(M)[id]; ok {
+				if o := c.T.Objects[tok.(string)]; o != nil && o["k"] == printed && (printed == "blob" || printed == "tree" || printed == "commit") {
+					cid = id
+				}
+			}
+			delivered = append(delivered, M{"id": id, "kind": printed, "c": "", "cid": cid, "res": "ok", "via": "cat-file-t"})
+		}
 		x := run("cat-p:"+id[:7], "cat-file", "-p", id)
 		if x.Res != "ok" {
 			continue
